@@ -604,7 +604,10 @@ fn run_export_inner(w: &World, s: &Shape, only: Option<EAlt>) -> Result<ExportOu
 	let id: Uuid = reply.id;
 	let mut out = ExportOut { labels: vec![], problems: vec![], observations: vec![], sample: Value::Null };
 	if s.lock_with_reply {
-		a.lock(&reply).map_err(|e| mach(format!("honest lock with the reply failed: {}", e)))?;
+		if let Err(e) = a.lock(&reply) {
+			out.labels.push(format!("honest-lock-refused:{}", err_class(&e)));
+			return Ok(out);
+		}
 	}
 	let s3 = match a.finalize(&reply) {
 		Ok(s3) => s3,
@@ -612,7 +615,11 @@ fn run_export_inner(w: &World, s: &Shape, only: Option<EAlt>) -> Result<ExportOu
 			out.labels.push(format!("finalize-under-other-account:refused:{}", err_class(&e)));
 			return Ok(out);
 		}
-		Err(e) => return Err(mach(format!("honest finalize failed: {}", e))),
+		Err(e) => {
+			// the first phase reports a refused honest reply as a verdict; there is no proof to export
+			out.labels.push(format!("honest-finalize-refused:{}", err_class(&e)));
+			return Ok(out);
+		}
 	};
 	if s.acct == Acct::Acct1SrcDefaultActive {
 		// the log entry lives in the source account: everything after finalization happens there
